@@ -4,7 +4,7 @@ C05  Concurrency bound and work conservation.
 Theorems about `Ctl.run` (L6) for EVERY event list, any concurrency, budget, sample size and random decisions.
 Float laws used: none.
 -/
-import CambrianModel.Lemmas.CtlInv
+import CambrianModel.Lemmas.CtlStep
 namespace Cambrian.Props
 open Cambrian Cambrian.Ctl
 
@@ -19,5 +19,28 @@ theorem C05_le (c : Cfg) (ss : Nat) (iv : Option V) (d : V) (chs : Nat → Algo.
 theorem C05_inflight_seeds_nodup (c : Cfg) (ss : Nat) (iv : Option V) (d : V) (chs : Nat → Algo.Choice V)
     (evs : List (Ev V)) : (seedsOf (run c ss iv d chs evs).1.inflight).Nodup :=
   (run_inv c ss iv d chs evs).nd
+
+/-- Work conservation: while the run is neither stopping (no abort latched: no termination request, no failure)
+    nor over, exactly `min(num_concurrent, remaining budget)` evaluations are in progress - a finished evaluation
+    is replaced in the very step in which its result is processed. -/
+theorem C05_exact (c : Cfg) (hnc : 0 < c.nc) (ss : Nat) (v0 d : V) (chs : Nat → Algo.Choice V) (evs : List (Ev V))
+    (hdone : (run c ss (some v0) d chs evs).1.done = false)
+    (hab : (run c ss (some v0) d chs evs).1.aborted = false) :
+    (run c ss (some v0) d chs evs).1.inflight.length =
+      match c.maxEval with
+      | some N => Nat.min c.nc (N - ((run c ss (some v0) d chs evs).1.accepted + (run c ss (some v0) d chs evs).1.rejected))
+      | none => c.nc := by
+  have h2 := run_inv2 c hnc ss v0 d chs evs
+  cases hN : c.maxEval with
+  | none => exact h2.wcNone hab hdone hN
+  | some N => exact h2.wcSome hab hdone N hN
+
+/-- non-vacuity: three in flight at concurrency 3 after one of them was replaced -/
+example :
+    let c : Cfg := { nc := 3, maxEval := some 10, target := none }
+    let evs : List (Ev Nat) := [.complete 1 (.acc 5 5) ⟨false, 7⟩]
+    (run c 1 (some 0) 0 (fun _ => ⟨false, 0⟩) evs).1.done = false ∧
+    (run c 1 (some 0) 0 (fun _ => ⟨false, 0⟩) evs).1.aborted = false ∧
+    (run c 1 (some 0) 0 (fun _ => ⟨false, 0⟩) evs).1.inflight.length = 3 := by decide
 
 end Cambrian.Props
